@@ -100,17 +100,17 @@ Section gen.
     map fst (filter (fun nt => negb (rstr_eqb (fst nt) name) && fold_eqb (fst nt) name) fs).
 
   (* candidates of one source (the struct itself or an autoMap source with its path prefix):
-     (exact : option path, case-insensitive matches : list path) *)
+     (exact : option path, case-insensitive matches : list path); the scan stops at the first exact match *)
+  Fixpoint scan_fields (prefix : list rstr) (name : rstr) (ignore_case : bool) (l : list (rstr * ty)) (acc : list (list rstr))
+    : option (list rstr) * list (list rstr) :=
+    match l with
+    | [] => (None, rev acc)
+    | (n, _) :: r => if rstr_eqb n name then (Some (prefix ++ [n]), rev acc)
+                     else if ignore_case && fold_eqb n name then scan_fields prefix name ignore_case r ((prefix ++ [n]) :: acc)
+                     else scan_fields prefix name ignore_case r acc
+    end.
   Definition all_fields (prefix : list rstr) (t : ty) (name : rstr) (ignore_case : bool) : option (list rstr) * list (list rstr) :=
-    let fs := struct_fields e t ++ methods_of t in
-    let fix go (l : list (rstr * ty)) (acc : list (list rstr)) : option (list rstr) * list (list rstr) :=
-        match l with
-        | [] => (None, rev acc)
-        | (n, _) :: r => if rstr_eqb n name then (Some (prefix ++ [n]), rev acc)
-                         else if ignore_case && fold_eqb n name then go r ((prefix ++ [n]) :: acc)
-                         else go r acc
-        end in
-    go fs [].
+    scan_fields prefix name ignore_case (struct_fields e t ++ methods_of t) [].
 
   Inductive ffres := FFOne (path : list rstr) | FFNone | FFAmbiguous.
   Definition find_field (name : rstr) (ignore_case : bool) (src : ty) (additional : list (list rstr * ty)) : ffres :=
@@ -144,8 +144,7 @@ Section gen.
       let cur1 := if d then f_PointerInner e cur else cur in
       if negb (f_Struct e cur1) then GDiag D_BAD_PATH
       else match find_exact cur1 name with
-           | Some (i, t) => if f_Signature e t && f_Named e cur1 then GDiag D_UNMODELLED   (* func-typed member: struct-method source *)
-                            else walk_path r t (crossed || d) ((d, i) :: acc)
+           | Some (i, t) => walk_path r t (crossed || d) ((d, i) :: acc)
            | None => if exact_is_method cur1 name then GDiag D_UNMODELLED else GDiag D_BAD_PATH
            end
     end.
@@ -228,12 +227,19 @@ Section gen.
   Definition fields_target (t : ty) : ty :=
     if f_Pointer e t && f_Struct e (f_PointerInner e t) then f_PointerInner e t else t.
 
-  (* is the value a Build returns a variable of the source (so that id.Pointer takes its address)? *)
-  Definition aliasing (srcvar : bool) (p : vplan) : bool :=
-    srcvar && match p with PShare => true | _ => false end.
+  (* l-value class of the current source expression (xtype.JenID.Variable plus where it lives):
+     0 value expression (call result, cast)   1 variable in local storage (parameter, field of a by-value
+     parameter, range variables, temporaries)   2 variable in memory reachable from the caller's value
+     (slice element, field behind a pointer)   3 dereference *p (not a JenID variable; its fields/elements are class 2).
+     id.Pointer() takes the address of a variable instead of copying it: for class 2 that aliases the source. *)
+  Definition LV_VALUE : N := 0. Definition LV_LOCAL : N := 1. Definition LV_HEAP : N := 2. Definition LV_DEREF : N := 3.
+  Definition lv_field (lv : N) : N := if lv =? LV_DEREF then LV_HEAP else if lv =? LV_VALUE then LV_LOCAL else lv.
+  Definition lv_elem (is_slice : bool) (lv : N) : N := if is_slice then LV_HEAP else lv_field lv.
+  Definition aliasing (lv : N) (p : vplan) : bool :=
+    (lv =? LV_HEAP) && match p with PShare => true | _ => false end.
 
   (* ---------------- the mutually recursive core ---------------- *)
-  Fixpoint build (fuel : nat) (ctx : bctx) (srcvar : bool) (s t : ty) {struct fuel} : M vplan :=
+  Fixpoint build (fuel : nat) (ctx : bctx) (srcvar : N) (s t : ty) {struct fuel} : M vplan :=
     match fuel with
     | O => fun _ => GFuel
     | S f =>
@@ -245,7 +251,7 @@ Section gen.
          if sub then create_sub f ctx s t else build_no_lookup f ctx srcvar s t) st
       end
     end
-  with assign (fuel : nat) (ctx : bctx) (must srcvar is_update : bool) (s t : ty) {struct fuel} : M aplan :=
+  with assign (fuel : nat) (ctx : bctx) (must : bool) (srcvar : N) (is_update : bool) (s t : ty) {struct fuel} : M aplan :=
     match fuel with
     | O => fun _ => GFuel
     | S f =>
@@ -294,20 +300,20 @@ Section gen.
             if sp && negb (f_Pointer e s && f_Struct e (f_PointerInner e s)) then GDiag D_UPDATE_SHAPE
             else
               let s' := if sp then f_PointerInner e s else s in
-              match struct_assign f ctx (negb sp) false s' (f_PointerInner e t) st0 with
+              match struct_assign f ctx (if sp then LV_DEREF else LV_LOCAL) false s' (f_PointerInner e t) st0 with
               | GOk (a, st1) =>
                 let a' := if sp then AIfNotNil a else a in
                 GOk (tt, {| b_tab := update_nth (N.to_nat id) (set_body (BUpd a')) (b_tab st1); b_names := b_names st1; b_seen := b_seen st |})
               | GDiag c => GDiag c | GPanic p => GPanic p | GFuel => GFuel
               end
         else
-          match build_no_lookup f ctx true (g_src m) (g_tgt m) st0 with
+          match build_no_lookup f ctx LV_LOCAL (g_src m) (g_tgt m) st0 with
           | GOk (p, st1) => GOk (tt, {| b_tab := update_nth (N.to_nat id) (set_body (BVal p)) (b_tab st1); b_names := b_names st1; b_seen := b_seen st |})
           | GDiag c => GDiag c | GPanic p => GPanic p | GFuel => GFuel
           end
       end
     end
-  with build_no_lookup (fuel : nat) (ctx : bctx) (srcvar : bool) (s t : ty) {struct fuel} : M vplan :=
+  with build_no_lookup (fuel : nat) (ctx : bctx) (srcvar : N) (s t : ty) {struct fuel} : M vplan :=
     match fuel with
     | O => fun _ => GFuel
     | S f =>
@@ -321,7 +327,7 @@ Section gen.
          | 0 => (* UseUnderlyingTypeMethods *)
            if x_isEnum e (bc_conf ctx) s t then fail D_ENUM
            else let '(su, tu) := x_findUnderlyingExtendMapping e (has_method (b_tab st)) (bc_conf ctx) s t in
-                build f ctx false (if su then under e s else s) (if tu then under e t else t)
+                build f ctx LV_VALUE (if su then under e s else s) (if tu then under e t else t)
          | 1 => ret PShare
          | 2 => fail D_UNMODELLED
          | 3 => let! p := build f ctx srcvar s (f_PointerInner e t) in ret (PRef false p)
@@ -338,7 +344,7 @@ Section gen.
          end) st
       end
     end
-  with assign_no_lookup (fuel : nat) (ctx : bctx) (srcvar is_update : bool) (s t : ty) {struct fuel} : M aplan :=
+  with assign_no_lookup (fuel : nat) (ctx : bctx) (srcvar : N) (is_update : bool) (s t : ty) {struct fuel} : M aplan :=
     match fuel with
     | O => fun _ => GFuel
     | S f =>
@@ -350,19 +356,19 @@ Section gen.
       | Some r =>
         (match r with
          | 1 => ret (ASet PShare)
-         | 4 => let! p := build f ctx false (f_PointerInner e s) (f_PointerInner e t) in ret (APtr p)
-         | 5 => let! p := build f ctx false (f_PointerInner e s) t in ret (ASrcPtr p)
+         | 4 => let! p := build f ctx LV_DEREF (f_PointerInner e s) (f_PointerInner e t) in ret (APtr p)
+         | 5 => let! p := build f ctx LV_DEREF (f_PointerInner e s) t in ret (ASrcPtr p)
          | 8 => struct_assign f ctx srcvar is_update s t
-         | 9 => let! a := assign f ctx false true false (f_ListInner e s) (f_ListInner e t) in
+         | 9 => let! a := assign f ctx false (lv_elem (negb (f_ListFixed e s)) srcvar) false (f_ListInner e s) (f_ListInner e t) in
                 ret (AList (f_ListFixed e s) (f_ListInner e t) a)
-         | 10 => let! k := build f ctx true (f_MapKey e s) (f_MapKey e t) in
-                 let! v := build f ctx true (f_MapValue e s) (f_MapValue e t) in
+         | 10 => let! k := build f ctx LV_LOCAL (f_MapKey e s) (f_MapKey e t) in
+                 let! v := build f ctx LV_LOCAL (f_MapValue e s) (f_MapValue e t) in
                  ret (AMap k v)
          | _ => (* AssignByBuild *) let! p := build_no_lookup f ctx srcvar s t in ret (ASet p)
          end) st
       end
     end
-  with struct_assign (fuel : nat) (ctx : bctx) (srcvar is_update : bool) (s t : ty) {struct fuel} : M aplan :=
+  with struct_assign (fuel : nat) (ctx : bctx) (srcvar : N) (is_update : bool) (s t : ty) {struct fuel} : M aplan :=
     match fuel with
     | O => fun _ => GFuel
     | S f =>
@@ -388,9 +394,9 @@ Section gen.
              | Some _ => GDiag D_UNMODELLED
              | None =>
                (* mapField *)
-               let sel_res : gres (option (selector * ty)) :=
+               let sel_res : gres (option (selector * ty * N)) :=
                  match fm_source fm with
-                 | [46] => GOk (Some (SelWhole, s))
+                 | [46] => GOk (Some (SelWhole, s, srcvar))
                  | src_path =>
                    let path_res : gres (option (list rstr)) :=
                      match src_path with
@@ -407,9 +413,9 @@ Section gen.
                      match walk_path path s false [] with
                      | GOk (steps, ft, crossed) =>
                        if crossed then
-                         if f_Pointer e ft then GOk (Some (SelPath steps WKeepPtr, ft))
-                         else GOk (Some (SelPath steps WAddr, TPtr ft))
-                       else GOk (Some (SelPath steps WNone, ft))
+                         if f_Pointer e ft then GOk (Some (SelPath steps WKeepPtr, ft, LV_LOCAL))
+                         else GOk (Some (SelPath steps WAddr, TPtr ft, LV_LOCAL))
+                       else GOk (Some (SelPath steps WNone, ft, lv_field srcvar))
                      | GDiag c => GDiag c | GPanic p => GPanic p | GFuel => GFuel
                      end
                    | GDiag c => GDiag c | GPanic p => GPanic p | GFuel => GFuel
@@ -417,8 +423,8 @@ Section gen.
                  end in
                match sel_res with
                | GOk None => fields r defined' (FSkip :: acc) st
-               | GOk (Some (sel, ns)) =>
-                 match assign f ctx false true false ns fty st with
+               | GOk (Some (sel, ns, lv)) =>
+                 match assign f ctx false lv false ns fty st with
                  | GOk (a, st') =>
                    let guard := x_shouldCheckAgainstZero e conf ns fty is_update false in
                    fields r defined' (FAssign sel guard a :: acc) st'
